@@ -190,11 +190,14 @@ def run(cx):
             t = o.of_operand(c.args[1])
             cs = [x for x in walk(t) if x[0] == "cast"]
             src = None
-            # source type of the unsize coercion
+            # source type(s) of the unsize coercion (a helper taking `Arc<dyn ServerCertVerifier>` re-coerces the trait object:
+            # that step has no concrete source and is skipped)
+            srcs = []
             for bl in c.body.blocks:
                 for s in bl["s"]:
-                    if s["k"] == "assign" and s["rv"]["k"] == "cast" and "Unsize" in s["rv"]["ck"] and "ServerCertVerifier" in s["rv"]["to"]:
-                        src = s["rv"]["from"]
+                    if s["k"] == "assign" and s["rv"]["k"] == "cast" and "Unsize" in s["rv"]["ck"] and "ServerCertVerifier" in s["rv"]["to"] and "dyn " not in str(s["rv"]["from"]):
+                        srcs.append(s["rv"]["from"])
+            src = srcs[0] if srcs and all(x_ in (f"alloc::sync::Arc<{CV}>", f"alloc::sync::Arc<{EV}>") for x_ in srcs) else (srcs[-1] if srcs else None)
             ob.require(src in (f"alloc::sync::Arc<{CV}>", f"alloc::sync::Arc<{EV}>"), f"client-verifier/type/{owner_path(prog, c.body)}",
                        f"{c.body.path}: server cert verifier has type {src}", c.body.path, c.body.loc(c.bb))
         # every rustls config anemo builds goes through its verifiers on every successful path
